@@ -14,3 +14,61 @@ func verifHarness_C03_order() {
 	rw := &ReadWriter{Message: &MessageVerifTriple{}}
 	_ = rw.Initialize()
 }
+
+// a user-defined message struct the library accepts, exercising the corners the shipped dialects do not have:
+// one-element arrays, a single char, a char[1], a custom wire name, a signed enum width, an extension array
+type VerifE uint64
+
+type MessageVerifOddities struct {
+	One    [1]uint8
+	Ch     string
+	S1     string `mavlen:"1"`
+	W      uint16
+	MyName uint32 `mavname:"odd_NAME"`
+	E      VerifE `mavenum:"int32"`
+	Ext    [1]uint16 `mavext:"true"`
+}
+
+func (*MessageVerifOddities) GetID() uint32 { return 9 }
+
+func verifLE(v uint64, n int) []byte {
+	out := make([]byte, n)
+	for i := 0; i < n; i++ {
+		out[i] = byte((v >> (8 * uint(i))) & 0xFF)
+	}
+	return out
+}
+
+// U: layout, sizes and CRC_EXTRA of the user-defined struct equal the values derived by hand from the MAVLink rules
+func verifHarness_C03_user(v2 int) {
+	rw := &ReadWriter{Message: &MessageVerifOddities{}}
+	verifAssert(rw.Initialize() == nil, "C03/U/accepted")
+	// CRC_EXTRA seed: NAME, then base fields in wire order "type name " (+ length byte for arrays only)
+	seed := []byte("VERIF_ODDITIES uint32_t odd_NAME int32_t e uint16_t w uint8_t one ")
+	seed = append(seed, 1)
+	seed = append(seed, []byte("char ch char s1 ")...)
+	seed = append(seed, 1)
+	c := verifCrcFold(0xFFFF, seed)
+	verifAssert(rw.CRCExtra() == byte(c&0xFF)^byte(c>>8), "C03/U/crc-extra-is-spec-value")
+	one, w, name, e, ext := verifNondetU8(), verifNondetU16(), verifNondetU32(), verifNondetU64(), verifNondetU16()
+	chb, s1b := verifNondetU8(), verifNondetU8()
+	verifAssume(chb != 0 && s1b != 0 && ext != 0)
+	m := &MessageVerifOddities{One: [1]uint8{one}, Ch: string([]byte{chb}), S1: string([]byte{s1b}), W: w, MyName: name,
+		E: VerifE(e), Ext: [1]uint16{ext}}
+	var exp []byte
+	exp = append(exp, verifLE(uint64(name), 4)...)
+	exp = append(exp, verifLE(e&0xFFFFFFFF, 4)...)
+	exp = append(exp, verifLE(uint64(w), 2)...)
+	exp = append(exp, one, chb, s1b)
+	if v2 == 1 {
+		exp = append(exp, verifLE(uint64(ext), 2)...)
+		// ext != 0 is assumed, so at most the high byte of ext is stripped
+		if exp[len(exp)-1] == 0 {
+			exp = exp[:len(exp)-1]
+		}
+	}
+	raw := rw.Write(m, v2 == 1)
+	verifObserveBytes("C03/U/payload", raw.Payload)
+	verifAssert(verifEqBytes(raw.Payload, exp), "C03/U/payload-is-spec-layout")
+	verifReach("C03/U")
+}
